@@ -33,6 +33,17 @@ class Models:
         self.exact[name] = None
         return None
 
+    def lookup_after(self, name, fn):
+        """the next model matching `name` after `fn` in precedence order (delegation from a specialised model)"""
+        seen = False
+        for r, f_ in self.rx:
+            if f_ is fn:
+                seen = True
+                continue
+            if seen and r.search(name):
+                return f_
+        return self.default
+
     @staticmethod
     def default(c):
         c.havoc_mut_args()
@@ -170,7 +181,8 @@ def seq_is_empty(c):
        r"|^<std::string::String as std::borrow::Borrow<str>>::borrow$|^<std::vec::Vec<.*> as std::borrow::Borrow(Mut)?<\[.*\]>>::borrow")
 def seq_view(c):
     src = c.deref(c.args[0])
-    return [(c.st, Seq(c.seq_len(c.args[0]), None, None, src.view if isinstance(src, Seq) else None, src.src if isinstance(src, Seq) else None))]
+    items = src.items if isinstance(src, Seq) and (is_listed(src.items) or isinstance(src.items, Empty)) and "mut" not in c.name.rsplit("::", 1)[-1] else None
+    return [(c.st, Seq(c.seq_len(c.args[0]), None, items, src.view if isinstance(src, Seq) else None, src.src if isinstance(src, Seq) else None))]
 
 
 @model(r"^std::slice::<impl \[.*\]>::to_vec$|^std::slice::<impl \[.*\]>::into_vec|^std::str::<impl str>::to_owned$|^std::str::<impl std::borrow::ToOwned for str>::to_owned$|^std::slice::<impl std::borrow::ToOwned for \[.*\]>::to_owned$|^<str as std::borrow::ToOwned>::to_owned$|^<\[.*\] as std::borrow::ToOwned>::to_owned$"
@@ -577,6 +589,17 @@ def slice_query(c):
 
 @model(r"^core::slice::<impl \[.*\]>::(iter|iter_mut)$|^<&(mut )?std::vec::Vec<.*> as std::iter::IntoIterator>::into_iter$|^<&(mut )?\[.*\] as std::iter::IntoIterator>::into_iter$")
 def slice_iter(c):
+    src = c.deref(c.args[0])
+    if isinstance(src, Seq) and c.it.track_content and (isinstance(src.items, Empty) or c.st.sys.entails_eq(src.len)):
+        return [(c.st, Iter(Lin.const(0), False, "iter", None, Struct({}, tag="elems")))]
+    if isinstance(src, Seq) and is_listed(src.items) and c.it.track_content and "iter_mut" not in c.name:
+        # a short list whose elements are known one by one: the iterator hands out references to them, in order
+        refs = {}
+        for i in sorted(src.items.f):
+            cell = "%s/%d.%d:it%d" % (c.fr.id, c.bb, c.part, i)
+            c.st.cells[cell] = src.items.f[i]
+            refs[i] = Ref(cell)
+        return [(c.st, Iter(src.len, False, "iter", None, Struct(refs, tag="elems")))]
     return [(c.st, Iter(c.seq_len(c.args[0])))]
 
 
